@@ -32,8 +32,9 @@ def run(ctx):
 
 def system_level(ctx):
     """Real DatacakeNode clusters, public API, every operation at level None: the other nodes learn of it only through
-    the real task distributor (and the real poller, if it gets to run).  Judged: every node's storage ends with the same
-    stamp, kind and bytes per document (polled for up to 40 s)."""
+    the real task distributor (and the real poller, if it gets to run).  Three keyspaces; one node only deletes in the first
+    and only writes in the second.  Operations on one document are issued more than a clock tick apart, so Trace_Consistency.tla
+    knows the last writer: every node's storage must end with the same stamp and exactly that operation (polled for up to 40 s)."""
     import json
     binary = vlib.build_harness(ctx, "h-ec")
     trace = ctx.path("converge.ndjson")
@@ -44,12 +45,12 @@ def system_level(ctx):
     tv = vlib.validate_trace(ctx, "Trace_Consistency", {}, trace, "converge", invariants=["Report"])
     if tv["rejected"] is not None:
         raise vlib.ToolError("trace validation stopped early: %s" % tv["rejected"])
-    ctx.log("system level: %d documents on 2 real clusters (operations at level None, real distributor): %d differ between nodes" % (
+    ctx.log("system level: %d documents on 2 real clusters (operations at level None, real distributor): %d differ between nodes or from the last writer" % (
         st["documents"], len(tv["fails"])))
     for e in tv["fails"][:3]:
         ctx.violations.append({"engine": "h-ec record-converge + Trace_Consistency", "event": e,
-                               "why": ["after operations issued at level None the nodes of a real cluster do not hold the same stamp / kind / bytes "
-                                       "for this document"]})
+                               "why": ["after operations issued at level None the nodes of a real cluster do not all hold the operation issued last "
+                                       "for this document (same stamp everywhere; its bytes if it was a put, a tombstone or nothing if it was a delete)"]})
     return {"documents": st["documents"], "documents_that_differ": len(tv["fails"])}
 
 
